@@ -239,7 +239,8 @@ const (
 func FileLocks(path string) ([]KLock, error) {
 	seen := map[KLock]bool{}
 	var out []KLock
-	for i := 0; i < 12; i++ {
+	quiet := 0
+	for i := 0; i < 80; i++ {
 		ls, atomic, err := fileLocksOnce(path)
 		if err != nil {
 			return nil, err
@@ -247,6 +248,9 @@ func FileLocks(path string) ([]KLock, error) {
 		if atomic {
 			return ls, nil
 		}
+		// the list did not fit one chunk (other checks or programs on this machine hold many locks): an entry
+		// can be skipped by one read when the list changes between two chunks. The locks of THIS file do not
+		// change while we look, so take the union of many reads and stop after 10 reads in a row that add nothing.
 		added := false
 		for _, l := range ls {
 			if !seen[l] {
@@ -255,7 +259,9 @@ func FileLocks(path string) ([]KLock, error) {
 				added = true
 			}
 		}
-		if i >= 3 && !added {
+		if added {
+			quiet = 0
+		} else if quiet++; quiet >= 10 {
 			break
 		}
 	}
